@@ -153,6 +153,13 @@ def l1_ok(scalar, x, r):
     # temporal
     if type(r) is not str:
         return "temporal-not-str"
+    if type(x) is dt.datetime and x.tzinfo is None:
+        # the text must denote the same instant / day / time of day in the canonical ISO layout (zero padded, four-digit year)
+        d = "%04d-%02d-%02d" % (x.year, x.month, x.day)
+        t = "%02d:%02d:%02d" % (x.hour, x.minute, x.second)
+        want = {"Date": d, "Time": t, "DateTime": d + "T" + t}[scalar]
+        if r != want and not (scalar != "Date" and x.microsecond and r.startswith(want)):
+            return "temporal-text-denotes-another-value"
     return None
 
 
@@ -288,7 +295,7 @@ def run_shard(item):
                             back = repr(e)
                         want = {"Date": x.replace(hour=0, minute=0, second=0), "Time": x.replace(year=1900, month=1, day=1),
                                 "DateTime": x}[scalar]
-                        if x.year >= 1000 and back != want:
+                        if back != want:
                             viol("temporal-roundtrip-in-out", "result->input", x, back, "(result was %r)" % (r,))
             else:
                 tab("l1", "failed")
